@@ -177,6 +177,7 @@ type AtomicField struct {
 
 type ContractSet struct {
 	AtomicFields []*AtomicField
+	GuardedBys   []*GuardedBy
 	Funcs        map[string]*FuncContract
 	Specs        map[string]*SpecFn
 	GlobalInvs   map[string][]*GlobalInv // by <shortpkg>.<global name>
@@ -261,7 +262,7 @@ func (fc *FuncContract) Mentions(prop string) bool {
 
 var tagRe = regexp.MustCompile(`^\[([^\]]*)\]\s*`)
 var labelRe = regexp.MustCompile(`^([A-Za-z_][A-Za-z0-9_\-]*):\s+`)
-var headRe = regexp.MustCompile(`^(func|iface|sig|extern|spec|globalinv|atomicfield)\s+(.*)$`)
+var headRe = regexp.MustCompile(`^(func|iface|sig|extern|spec|globalinv|atomicfield|guardedby)\s+(.*)$`)
 var clauseKw = map[string]bool{"returns": true, "safety": true, "requires": true, "ensures": true, "modifies": true, "writes": true,
 	"loop": true, "let": true, "across": true, "ghostset": true, "ghostadd": true, "onwrite": true, "callpre": true, "argfrom": true, "inline": true, "trusted": true, "trustedframe": true, "pure": true, "calls": true, "logical": true, "opaque": true, "recovered": true, "deferred": true, "canon": true, "logged": true, "noalloc": true}
 
@@ -368,6 +369,18 @@ func (cs *ContractSet) ParseFile(path, pkg string) error {
 					return fmt.Errorf("%s:%d: atomicfield [props] Type.field", path, lineNo)
 				}
 				cs.AtomicFields = append(cs.AtomicFields, &AtomicField{Pkg: pkg, Type: parts[0], Field: parts[1], Props: props, File: path, Line: lineNo})
+				cur = nil
+				continue
+			}
+			if kind == "guardedby" {
+				// guardedby [props] Type.field by lockfield
+				props, _, r := parseTags(rest)
+				f := strings.Fields(r)
+				if len(f) != 3 || f[1] != "by" || len(strings.Split(f[0], ".")) != 2 {
+					return fmt.Errorf("%s:%d: guardedby [props] Type.field by lockfield", path, lineNo)
+				}
+				tf := strings.Split(f[0], ".")
+				cs.GuardedBys = append(cs.GuardedBys, &GuardedBy{Pkg: pkg, Type: tf[0], Field: tf[1], Lock: f[2], Props: props, File: path, Line: lineNo})
 				cur = nil
 				continue
 			}
